@@ -233,10 +233,11 @@ theorem runSync_skeleton :
        "call wp.instanceSet.throttleInstances.CheckRateLimitError", "return", "}", "call wp.sync", "return"] :=
   ⟨rfl, rfl⟩
 
-/-- `reportSSHConnected` uses the looked-up worker without a nil check (finding F15b;
-`C15.reportSSHConnected`). -/
-theorem reportSSHConnected_unguarded : reportSSHConnectedConds =
-    ["if wkr.state != StateBooting || !wkr.firstSSHConnection.IsZero()", "if wp.mTimeToSSH != nil"] := rfl
+/-- `reportSSHConnected` returns at once when the instance has no worker in the pool (fix of finding
+F15b; `C15.reportSSHConnected`). -/
+theorem reportSSHConnected_guarded : reportSSHConnectedConds =
+    ["if wkr == nil", "if wkr.state != StateBooting || !wkr.firstSSHConnection.IsZero()",
+     "if wp.mTimeToSSH != nil"] := rfl
 
 /-- The quota back-off is a fixed minute (why quota scenarios get a longer deadline). -/
 theorem quota_ttl : "quotaErrorTTL = time.Minute" ∈ poolTimeConsts := by decide
